@@ -119,6 +119,7 @@ BITCASK_ONLY = [
     "enum Error", "struct Context", "struct Writer", "struct Reader", "struct KeyDirEntry", "struct HintFileEntry", "struct DataFileEntry",
     "impl Writer::fn put", "impl Writer::fn delete", "impl Writer::fn write", "impl Writer::fn new_active_datafile", "impl Writer::fn sync",
     "impl Reader::fn get",
+    "fn rebuild_storage", "fn populate_keydir_with_hintfile", "fn populate_keydir_with_datafile",
 ]
 
 UNITS["store"] = {
@@ -135,6 +136,7 @@ UNITS["store"] = {
                                                   "only": ["fn datafile_name", "fn hintfile_name", "fn sorted_fileids", "fn timestamp"]}),
         ("raw", "prelude/store_entry_views.rs", "prelude", {"mod": "bitcask"}),
         ("raw", "lemmas/store_lemmas.rs", "lemma", {"mod": "bitcask"}),
+        ("raw", "lemmas/recover_lemmas.rs", "lemma", {"mod": "bitcask"}),
         ("repo", "src/storage/bitcask.rs", {"mod": "bitcask", "rules": STORE_RULES, "only": BITCASK_ONLY}),
     ],
     "mod_uses": {
